@@ -49,6 +49,9 @@ pub struct QCall<'a, 'b, T> {
     pub q: ArrayViewD<'a, T>,
     pub q2: Option<ArrayViewD<'a, T>>,
     pub buf: Option<ArrayViewMutD<'b, T>>,
+    /// storage kinds of the query arrays handed to a 2-D interpolator (rank-1 static and dynamic queries only):
+    /// 0 view/view, 1 view/owned, 2 owned/view, 3 view/shared, 4 shared/owned, 5 owned/owned
+    pub mix: u8,
 }
 
 pub struct QOut<T> {
@@ -212,6 +215,45 @@ macro_rules! array_entry_2d {
                 guarded(|| $self.interp_array_into(&q, &q2, buf).map_err(ierr), |_| None)
             }
             _ => unreachable!(),
+        }
+    }};
+}
+
+/// like array_entry_2d, with the x / y query arrays in different storage kinds (C19: the casts of the fast path
+/// name the storage types of both query arrays)
+macro_rules! array_entry_2d_mixed {
+    ($self:ident, $c:ident, $D:ty, $Dq:ty) => {{
+        type Out = <$Dq as DimAdd<<<$D as Dimension>::Smaller as Dimension>::Smaller>>::Output;
+        let q = match $c.q.into_dimensionality::<$Dq>() {
+            Ok(q) => q,
+            Err(_) => return na(),
+        };
+        let q2 = match $c.q2.take().map(|q| q.into_dimensionality::<$Dq>()) {
+            Some(Ok(q)) => q,
+            _ => return na(),
+        };
+        macro_rules! go {
+            ($x:expr, $y:expr) => {
+                match $c.entry {
+                    Entry::Array => guarded(|| $self.interp_array($x, $y).map_err(ierr), |a| Some(a.into_dyn())),
+                    Entry::ArrayInto => {
+                        let buf = match $c.buf.take().map(|b| b.into_dimensionality::<Out>()) {
+                            Some(Ok(b)) => b,
+                            _ => return na(),
+                        };
+                        guarded(|| $self.interp_array_into($x, $y, buf).map_err(ierr), |_| None)
+                    }
+                    _ => unreachable!(),
+                }
+            };
+        }
+        match $c.mix {
+            1 => go!(&q, &q2.to_owned()),
+            2 => go!(&q.to_owned(), &q2),
+            3 => go!(&q, &q2.to_owned().into_shared()),
+            4 => go!(&q.to_owned().into_shared(), &q2.to_owned()),
+            5 => go!(&q.to_owned(), &q2.to_owned()),
+            _ => go!(&q, &q2),
         }
     }};
 }
@@ -419,11 +461,11 @@ macro_rules! impl_dyn2 {
                     }
                     Entry::Array | Entry::ArrayInto => match c.qtag {
                         "Ix0" => array_entry_2d!(self, c, $D, Ix0),
-                        "Ix1" => array_entry_2d!(self, c, $D, Ix1),
+                        "Ix1" => array_entry_2d_mixed!(self, c, $D, Ix1),
                         "Ix2" => array_entry_2d!(self, c, $D, Ix2),
                         "Ix3" => array_entry_2d!(self, c, $D, Ix3),
                         "Ix4" => array_entry_2d!(self, c, $D, Ix4),
-                        "IxDyn" => array_entry_2d!(self, c, $D, IxDyn),
+                        "IxDyn" => array_entry_2d_mixed!(self, c, $D, IxDyn),
                         _ => na(),
                     },
                 }
